@@ -258,6 +258,17 @@ func mkHarness(sc scenario) func() vsync.Harness {
 							}
 						}
 					}
+					// thread 0 is a consumer that closes the nested results it was handed before it closes the root (allowed:
+					// Close on a nested result leaves it to its owner). Whatever that does, the objects stay this thread's
+					// until the root is closed: nobody else may be handed them in between.
+					if t == 0 && err == nil && len(nrs) > 0 && allWellFormed(occs) {
+						vsync.Point("api:Close(nested results)")
+						for _, nr := range nrs {
+							if cerr := nr.Close(); cerr != nil {
+								vsync.Failf("close-error", "nested: %v", cerr)
+							}
+						}
+					}
 					vsync.Point("api:Close")
 					if err := res.Close(); err != nil {
 						vsync.Failf("close-error", "%v", err)
@@ -445,7 +456,7 @@ func main() {
 		return s
 	}())
 	racePass(r)
-	r.Rule("controlled cooperative scheduler over the real lazyproto code (sync.Pool behind the shim): (inputs include a malformed nested element, two trailing EMPTY nested elements, and - offered first by the last thread - an outer input that is rejected after a valid prefix) threads share one Decoder, each iteration = Decode(own unique input) . read all . NestedResults . read nested (+ nested of nested) . Close; scheduling points = every Pool.Get/Put of every pool + every API-call boundary + between obtaining values and re-verifying them; DFS over thread choices (preemption-bounded) x pool answers (deviation-bounded), sharded over 16 processes on depth-2 subtrees. Oracle: every value a thread reads equals the reference parse of its own input, also after other threads ran; no panic, no deadlock. states/transitions = scheduling/choice points executed; traces = complete executions; distinct_nontrivial = executions in which some thread received an object recycled from the pool. distinct_object_assignment_outcomes/* count the distinct assignments of pooled objects to (thread, iteration) that were observed (shows that recycling really interleaved).")
+	r.Rule("controlled cooperative scheduler over the real lazyproto code (sync.Pool behind the shim): (inputs include a malformed nested element, two trailing EMPTY nested elements, and - offered first by the last thread - an outer input that is rejected after a valid prefix) threads share one Decoder, each iteration = Decode(own unique input) . read all . NestedResults . read nested (+ nested of nested) . [thread 0: Close every nested result] . Close; scheduling points = every Pool.Get/Put of every pool + every API-call boundary + between obtaining values and re-verifying them; DFS over thread choices (preemption-bounded) x pool answers (deviation-bounded), sharded over 16 processes on depth-2 subtrees. Oracle: every value a thread reads equals the reference parse of its own input, also after other threads ran; no panic, no deadlock. states/transitions = scheduling/choice points executed; traces = complete executions; distinct_nontrivial = executions in which some thread received an object recycled from the pool. distinct_object_assignment_outcomes/* count the distinct assignments of pooled objects to (thread, iteration) that were observed (shows that recycling really interleaved).")
 	r.Assume("unsynchronised accesses inside one API call are invisible to a cooperative scheduler; the free-running -race pass (sampling, key race_pass) complements but does not decide")
 	r.Assume("more than 3 threads / 2 iterations and preemptions above the bound are outside the coverage statement")
 	r.Finish()
